@@ -94,7 +94,8 @@ def EncOut (ρ : RevCtx) (x : Ctx) (t : Int) (s0 : List Row) (w w' : World) (c :
 theorem encryptPayload_wp {ρ : RevCtx} {x : Ctx} {t : Int} {s0 : List Row} (payload : Nat) (b : Bool)
     (hpos : 0 < keyTimestamp t x.pol.precision) (w : World) (h : St ρ (Delta ρ x t s0) t w) :
     Wp (encryptPayload x payload b) w fun r w' => St ρ (Delta ρ x t s0) t w' ∧ MSame w w' ∧
-      ∀ d : Drr, r = .ok d → ∃ c, drrIk d = some ⟨x.ikId, c⟩ ∧ EncOut ρ x t s0 w w' c := by
+      ∀ d : Drr, r = .ok d → ∃ c, drrIk d = some ⟨x.ikId, c⟩ ∧ EncOut ρ x t s0 w w' c ∧
+        ∃ k, (keyAt w' k).created = c ∧ ReadsBack w w' x.ikCache x.ikId k := by
   unfold encryptPayload
   apply Wp.bind
   apply Wp.mono (getOrLoadLatest_wp (LPik_mono ρ x t s0) x.ikCache x.ikId
@@ -104,7 +105,8 @@ theorem encryptPayload_wp {ρ : RevCtx} {x : Ctx} {t : Int} {s0 : List Row} (pay
   | error e => exact ⟨h1, hms1, fun d hd => by cases hd⟩
   | ok ik =>
     simp only []
-    have hcase := hk1 ik rfl
+    have hcase := hk1.1 ik rfl
+    have hrb := hk1.2 ik rfl
     have hex : ∃ ko : KeyObj, w1.keys[ik]? = some ko := by
       rcases hcase with ⟨hh, hw, -⟩ | ⟨ko, hko, -⟩
       · obtain ⟨-, -, ko, hko, -⟩ := hit_out h hh hw.cw
@@ -113,7 +115,18 @@ theorem encryptPayload_wp {ρ : RevCtx} {x : Ctx} {t : Int} {s0 : List Row} (pay
     obtain ⟨ko, hko⟩ := hex
     apply Wp.mono (encTail_wp x payload ik w1 ko hko)
     intro r w2 ⟨hq, hd⟩
-    refine ⟨h1.qes hq.qes, RT.trans hms1 hq.qes.q.msame, fun d hr => ⟨ko.created, hd d hr, ?_⟩⟩
+    refine ⟨h1.qes hq.qes, RT.trans hms1 hq.qes.q.msame, fun d hr => ⟨ko.created, hd d hr, ?_, ik, hq.keyAt_created hko, ?_⟩⟩
+    rotate_left
+    · intro hm hlen
+      rcases hrb hm hlen with ⟨e, he, ho⟩ | ⟨l, hl, hlt⟩
+      · left
+        refine ⟨e, ?_, ho⟩
+        unfold readEntry readMeta
+        rw [(hq.qes.views _).1, (hq.qes.views _).2]
+        exact he
+      · right
+        refine ⟨l, by rw [(hq.qes.views _).2]; exact hl, ?_⟩
+        rw [hq.keyAt_created hko, ← keyAt_of_get hko]; exact hlt
     rcases hcase with ⟨hh, hw, hvalid⟩ | hres
     · left
       obtain ⟨-, -, ko', hko', hc, -⟩ := hit_out h hh hw.cw
@@ -422,7 +435,8 @@ theorem encrypt_wp {ρ : RevCtx} {w : World} (h : Inv ρ w) (s pay : Nat) (b : B
     Wp (encrypt s pay [] b) w fun r w' =>
       Inv ρ w' ∧ w'.now = w.now ∧ MSame w w' ∧ Delta ρ (sessionCtx w s) w.now w.store w'.store ∧
       ∀ d : Drr, r = .ok d → ∃ c, drrIk d = some ⟨(sessionCtx w s).ikId, c⟩ ∧
-        EncOut ρ (sessionCtx w s) w.now w.store (beginOp [] w).2 w' c := by
+        EncOut ρ (sessionCtx w s) w.now w.store (beginOp [] w).2 w' c ∧
+        ∃ k, (keyAt w' k).created = c ∧ ReadsBack w w' (sessionCtx w s).ikCache (sessionCtx w s).ikId k := by
   unfold encrypt
   refine Wp.bind_unit rfl ?_
   apply Wp.bind; apply Wp.get; simp only []
